@@ -14,6 +14,7 @@
 //!  * `rgs`        (thorough tier) a rapid-gossip-sync v1 snapshot produced by the harness's own
 //!                 encoder is applied on top of a gossip-built graph.
 
+mod asyncpart;
 mod model;
 mod rgs;
 mod uni;
@@ -789,7 +790,7 @@ fn main() {
 	c.assume("the harness is built with lightning's `_test_utils` feature, which disables the wall-clock staleness/future checks on channel_update timestamps; generated timestamps nevertheless stay inside the window a production build accepts (now-13d .. now+9h)");
 	c.assume("times compared with the library's own clock readings (announcement receive time, removal tombstones) keep >= 2 h distance from the 1-week / 2-week edges; a case is assumed to finish within 2 h of process start");
 	c.assume("the unsigned entry points (update_channel_from_unsigned_announcement, update_channel_unsigned, update_node_from_unsigned_announcement) are expected to apply every rule of the signed ones except the signature check and keeping the message for relay, as their documentation states; forged variants are never delivered through them");
-	c.assume("UTXO lookups answer synchronously; asynchronous lookups (UtxoFuture) and gossip queries/back-pressure are not exercised");
+	c.assume("UTXO lookups answer synchronously in the model / confluence / tamper parts; part async-lookup answers through UtxoFuture (resolved at generated moments, processed when the gossip handler is polled) and checks the authenticity clause on the resulting graph without a reference for the holding rules; gossip queries / back-pressure are not exercised");
 	c.assume("signature validity in the reference is decided by an independent secp256k1 verification over sha256d of the re-serialized signed part against the keys named in the message / stored for the channel");
 	c.assume("the relay limit for unknown trailing data (1024 bytes: larger messages are applied but not stored) and the 'same scid, other endpoints is re-validated against the chain' rule are taken from the library's documented behaviour, not from BOLT 7");
 	c.assume("messages are canonical structs a wire decoder could have produced (must_be_one flag set, unknown address data starting with an unknown descriptor type)");
@@ -827,6 +828,17 @@ fn main() {
 		},
 		tcase_strat(),
 		tamper_oracle,
+	);
+	c.part(
+		PartSpec {
+			name: "async-lookup",
+			rule: "universe as in part model with the chain answering asynchronously (UtxoResult::Async) for all or a generated subset of the channels; 10-160 operations: deliveries through P2PGossipSync::handle_* only (valid and forged messages, also while the channel they belong to still awaits its lookup), completion of a pending lookup with the chain's true answer, polls of the gossip handler; after every completion and at the end everything the graph reflects (channel, each direction's policy, node data) must be backed by a delivered message with valid signature(s) against the announced keys carrying exactly that content, a channel also by a chain answer for its announced 2-of-2. Non-trivial: a lookup completed asynchronously after a channel_update for that channel had arrived, and the graph ends with channels",
+			quick_cases: 5_000,
+			thorough_cases: 150_000,
+			max_shrink: 1500,
+		},
+		asyncpart::acase_strat(),
+		asyncpart::async_oracle,
 	);
 	// deliveries (and acceptances) per entry point and message kind over all parts of this run
 	let mut note = serde_json::Map::new();
